@@ -312,9 +312,15 @@ def _dumps_xml(data, **kwargs):
     if theory == "SGP/SGP4":  # pragma: no branch
         tle_params = ET.SubElement(data_tag, "tleParameters")
         ephemeris_type = ET.SubElement(tle_params, "EPHEMERIS_TYPE")
-        ephemeris_type.text = "0"
+        ephemeris_type.text = str(
+            getattr(data, "ephemeris_type", data.tle.type if hasattr(data, "tle") else 0)
+        )
         classification = ET.SubElement(tle_params, "CLASSIFICATION_TYPE")
-        classification.text = "U"
+        classification.text = getattr(
+            data,
+            "classification_type",
+            data.tle.classification if hasattr(data, "tle") else "U",
+        )
         norad_id = ET.SubElement(tle_params, "NORAD_CAT_ID")
         norad_id.text = str(data.norad_id)
         element_nb = ET.SubElement(tle_params, "ELEMENT_SET_NO")
